@@ -88,9 +88,25 @@ THOROUGH_EXTRA = [
 ]
 
 
+def atoms_h(name, mode, extra, unwind, L=6, timeout=600, desc=""):
+    return Harness(name="H1_atoms_" + name, src="c01/h_atoms.c", defines=["-DVF_MODE=%d" % mode, "-DVF_L=%d" % L] + extra,
+                   unwind=unwind, timeout=timeout, desc=desc,
+                   bounds="string/atom bytes symbolic, length <= %d; quality function nondeterministic per call" % L,
+                   functions=["yr_atoms_extract_from_string", "_yr_atoms_wide", "_yr_atoms_xor", "_yr_atoms_case_insensitive", "_yr_atoms_case_combinations"],
+                   stubs=["config->get_atom_quality -> nondet 0..255"])
+
+
 def harnesses(ctx, tier):
     N = 8 if tier == "thorough" else 6
     hs = []
+    for nm, fl in (("ascii", "STRING_FLAGS_ASCII"), ("wide", "STRING_FLAGS_WIDE"), ("ascii_wide", "(STRING_FLAGS_ASCII|STRING_FLAGS_WIDE)")):
+        hs.append(atoms_h("extract_" + nm, 1, ["-DVF_FLAGS=" + fl], 8, desc="yr_atoms_extract_from_string, flags " + nm))
+    hs.append(atoms_h("stage_wide", 2, [], 6, desc="_yr_atoms_wide on one arbitrary atom"))
+    hs.append(atoms_h("stage_xor", 3, [], 6, desc="_yr_atoms_xor on one arbitrary atom, arbitrary min, max-min<=3"))
+    for cl in ((1, 2, 3, 4) if tier == "thorough" else (1, 2, 3)):
+        hs.append(atoms_h("stage_nocase_len%d" % cl, 4, [], max(6, 2 ** cl + 2), L=cl, timeout=1800,
+                          desc="_yr_atoms_case_insensitive on one arbitrary atom of length %d (all byte values)" % cl))
+        hs[-1].flags = ["--object-bits", "10"]
     T = QUICK + (THOROUGH_EXTRA if tier == "thorough" else [])
     for name, sb, mods in T:
         hs.append(text_template(name, list(sb), mods, N))
